@@ -334,6 +334,16 @@ def enumerate_steps(rs, inputs):
         e = ["add", ["mul", const(rs, ()), ["var", n, list(sh)]], const(rs, sh)]
         steps.append(("affine:self_scaling:%s" % n, {"op": "subs", "subs": {n: {"t": "affine", "expr": e}}}))
 
+    # --- values that LOOK affine to a shallow test but are not: a sum with a non-affine use of the same input, a non-additive
+    # reduction.  The substitution must still be function application (a lazy Subs is fine, a linearisation is not) (C04, C12)
+    for (n, sh) in reals[:2]:
+        u = fr[0]
+        e1 = ["add", ["var", u, list(sh)], ["exp", ["var", u, list(sh)]]]
+        steps.append(("nonaffine:sum_with_exp:%s" % n, {"op": "subs", "subs": {n: {"t": "affine", "expr": e1}}}))
+        if len(sh) == 0:
+            e2 = ["logsumexp", ["var", u, [2]]]
+            steps.append(("nonaffine:logsumexp_reduction:%s" % n, {"op": "subs", "subs": {n: {"t": "affine", "expr": e2}}}))
+
     # --- align: every permutation of (up to 4) names, plus prefixes
     names = list(inputs)
     perms = list(itertools.permutations(names))
